@@ -9,6 +9,21 @@ CLAIMED = {
    text="TLC exhausts the open-addressing table model (all ops, growth 8->16, wrap-around clusters; all ideal-slot assignments in the thorough tier) and every interleaving of 2-3 SetWithCap writers + Del/CAS/CAD over 2-3 segments for capacities 1..3, checking map refinement, no-dup/reachability, occupancy bound, never-evict-self, one-lock-at-a-time, quiescent length and termination. Conformance binds it to the code in both directions: spec->code replay with layout-exact comparison and code->spec trace validation of gated real executions, with the property predicates evaluated on the real state after every step.",
    design_ref="2.1",
    note="Assumes the per-segment table refines a map (established by ProbeMap on <=16 slots; larger tables only through the gated runs' random keys); real keys are searched to land on the model's ideal slots/segments; schedules are serialised by the gate so lock-free windows inside one gate-to-gate step are not interleaved."),
+ "C05": dict(
+   technique="TLA+ spec Serve.tla (two transcriptions of the entry half: WirePass / MsgPass) model-checked with TLC (PathsAgree as an action property over four packet families); TLC-simulated behaviours concretised to packet bytes and replayed through three identically configured real servers (ServeRaw strict slots, ServeMsg, ServeRawInline+ServeRawReplay) with decoded-reply, upstream-invocation and follow-up comparison",
+   text="TLC checks in the model that the wire pass and the decoded pass agree on outcome and side effects for every packet of the admission, shaping, cookie/limiter and ECS families over short histories; the replay judges the real code by the property's own equivalence (decoded replies equal up to compression/case, same drop/reject decision, same upstream calls, same later-visible cache state).",
+   design_ref="2.9",
+   note="Byte-level packet universe sampled per abstract class (2-4 variants), not enumerated; TTLs compared with 1 s tolerance; option order and record order inside a section are not compared; schedules are out of scope (sequential by the statement)."),
+ "C06": dict(
+   technique="TLA+ spec Serve.tla model-checked with TLC (ReplyContract, OneToken action properties; a regression config with the pre-fix CancelWithRcode must fail); TLC-simulated behaviours concretised and replayed through the real default chain on three entries, the reply contract evaluated on the raw bytes of every reply",
+   text="The contract clauses of the statement (QR/ID/opcode echo, question echo, no OPT unless asked, no DNSSEC RRs unless DO/RRSIG, AD discipline, no ECS/keepalive/foreign options, cookie only against a cookie, UDP size or bare TC, ingress verdicts) are invariants of the model and are evaluated byte-level on every real reply for every generated (config, history, packet, upstream content).",
+   design_ref="2.9",
+   note="UDP/TCP and the shared ServeMsg entry are exercised; DoT/DoH/DoQ framing is not (their replies are produced by the same chain entered through ServeMsg); engine header verdicts are checked through the engine's own acceptHeader (overlay shim), not through sockets."),
+ "C19": dict(
+   technique="TLA+ spec Serve.tla (ecs and cookies families: EcsForwarded / NeverEcsToClient) model-checked with TLC; behaviours replayed through the real default chain observing the upstream query's OPT at a scripted tail and the client reply's OPT",
+   text="For every ECS policy (off/on/invalid), client option kind (v4/v6, over-long, host bits, family 0, bad family), OPT shape and upstream content the check decides: ECS leaves only when enabled, clamped and host-bit free; every other client option is gone upstream; no ECS ever returns to a client.",
+   design_ref="2.9",
+   note="Scoped-answer audience / TTL cap / prefetch / shared-denial bypass clauses are covered only through the upecs content class so far (extension planned); client networks are 0.0.0.0/0 and ::/0 in the enabled policy."),
 }
 
 NOT_YET = {}
